@@ -42,6 +42,10 @@ func (ex *Exec) resolveCall(st *State, cc *ssa.CallCommon) (*FuncV, []Value) {
 				fv.Alts = append(fv.Alts, FuncAlt{G: al.G})
 				continue
 			}
+			if ex.isOpaque(al.Typ) {
+				fv.Alts = append(fv.Alts, FuncAlt{G: al.G, Builtin: "opaque-call"})
+				continue
+			}
 			m := ex.prog.LookupMethod(al.Typ, cc.Method.Pkg(), cc.Method.Name())
 			if m == nil {
 				panic(ex.unsupported("method %s not found on %s", cc.Method.Name(), al.Typ))
@@ -109,6 +113,20 @@ func (ex *Exec) invokeOne(st *State, al FuncAlt, args []Value, cc *ssa.CallCommo
 	full := args
 	if al.Recv != nil {
 		full = append([]Value{al.Recv}, args...)
+	}
+	if al.Builtin == "opaque-call" {
+		// method of an opaque stub object (logger): empty body, zero results
+		ex.Intrinsics["opaque stub method (empty body)"]++
+		var v Value
+		res := cc.Signature().Results()
+		switch res.Len() {
+		case 0:
+		case 1:
+			v = ex.zero(res.At(0).Type())
+		default:
+			v = ex.zero(res)
+		}
+		return finish(v)
 	}
 	if al.Builtin != "" {
 		if strings.HasPrefix(al.Builtin, "builtin:") {
@@ -212,7 +230,12 @@ func (ex *Exec) opaqueIface(name string) *IfaceV {
 	o.Ghost = true
 	tn := types.NewTypeName(token.NoPos, nil, "opaque_"+name, nil)
 	named := types.NewNamed(tn, types.NewStruct(nil, nil), nil)
-	v := &IfaceV{Alts: []IfaceAlt{{G: ex.tb.True, Typ: types.NewPointer(named), Val: ex.ptrTo(o)}}}
+	pt := types.NewPointer(named)
+	if ex.opaqueTypes == nil {
+		ex.opaqueTypes = map[types.Type]bool{}
+	}
+	ex.opaqueTypes[pt] = true
+	v := &IfaceV{Alts: []IfaceAlt{{G: ex.tb.True, Typ: pt, Val: ex.ptrTo(o)}}}
 	ex.errObjs["opaque:"+name] = v
 	return v
 }
@@ -631,3 +654,5 @@ func (ex *Exec) upperBound(st *State, t *Term) (int64, bool) {
 	}
 	return ex.concretize(st, t, "upper bound")
 }
+
+func (ex *Exec) isOpaque(t types.Type) bool { return ex.opaqueTypes[t] }
